@@ -27,6 +27,16 @@ func init() {
 		"sxParam":   sxParam,
 		"sxOpt":     sxOpt,
 		"sxNote":    sxNote,
+		"sxOptN": func(fr *frame, args []value) value {
+			ps := fr.i.ps
+			switch name := concStr(args[0], "sxOptN name"); name {
+			case "preempt-bound":
+				ps.sched.preemptBound = int(asInt64(args[1]))
+			default:
+				panic(pathEnd{StEngineError, "unknown sxOptN " + name})
+			}
+			return nil
+		},
 		"sxDebug":   func(fr *frame, args []value) value { return nil },
 		"sxSymbolic": func(fr *frame, args []value) value { return !fr.i.ps.isConcrete },
 	}
@@ -197,6 +207,8 @@ func sxOpt(fr *frame, args []value) value {
 		ps.nondetMap = on
 	case "explore-sched":
 		ps.sched.explore = on
+	case "rr-sched":
+		ps.sched.rr = on
 	case "race":
 		ps.sched.race = on
 	case "fp-ints":
